@@ -3,7 +3,7 @@
    table writes of the trace-class / sampler decoders along the stream); tie: end-to-end correspondence of
    tools/props/C14.py (dump -> events -> pairing -> tables -> lines, for all 64 switch settings). *)
 From Coq Require Import String NArith List Bool.
-From Kd Require Import theories.Base theories.Printers theories.Container theories.DecoderDSL theories.Format.
+From Kd Require Import theories.Base theories.Printers theories.Container theories.DecoderDSL theories.Format theories.FormatLog.
 Import ListNotations.
 Open Scope N_scope.
 
@@ -46,6 +46,29 @@ Proof. exact undeclared_is_unknown. Qed.
 Theorem c14_declared : forall tb tid pid, dget (fst tb) tid = Some pid ->
   format_process tb tid = (match dget (snd tb) pid with Some n => n | None => [] end) ++ s2b "(" ++ dec pid ++ s2b ")".
 Proof. exact declared_names_its_process. Qed.
+
+(* 3. log lines (formatted_logs): the same composition - timestamp, thread id, process (for records that name one),
+      message - for every switch setting, coloured or not *)
+Theorem c14_log_line : forall c color tb tstext tid hp msg,
+  log_line c color tb tstext tid hp msg =
+    col (show_timestamp c) (paint color GREEN (ljust 27 tstext))
+    ++ col (show_tid c) (rjust 11 (dec tid) ++ s2b " ")
+    ++ col (show_process c) (col hp (s2b " " ++ paint color MAGENTA (ljust 27 (format_process tb tid)) ++ s2b " "))
+    ++ paint color WHITE msg.
+Proof. exact log_line_columns. Qed.
+(* 4. colouring never changes the text: the coloured log line with its SGR sequences (ESC [ params m) removed IS the
+      plain line, and the plain line contains none (guard: the date text, the process column and the message do not
+      themselves contain the escape byte) *)
+Theorem c14_colour_keeps_text : forall c tb tstext tid hp msg,
+  noesc tstext = true -> noesc (format_process tb tid) = true -> noesc msg = true ->
+  strip_ansi (log_line c true tb tstext tid hp msg) = log_line c false tb tstext tid hp msg /\
+  strip_ansi (log_line c false tb tstext tid hp msg) = log_line c false tb tstext tid hp msg.
+Proof. intros. split; [now apply log_colour_text | now apply log_plain_text]. Qed.
+Example c14_colour_nontrivial :
+  let tb := set_thread_map [(7, 1, s2b "launchd")] ([], []) in
+  let l := log_line (mkF true false false false true false) true tb (s2b "2020-01-01 00:00:00.000000") 7 true (s2b "hi") in
+  l <> strip_ansi l /\ strip_ansi l = s2b "2020-01-01 00:00:00.000000  launchd(1)                  hi".
+Proof. split; [vm_compute; discriminate | vm_compute; reflexivity]. Qed.
 
 Example c14_nontrivial :
   let kind e := match e with 10 => TK_DATA_NEW | 11 => TK_STR_NEW | _ => 0 end in
